@@ -177,7 +177,9 @@ func (n *addDefaults) yangDataChildren(
 				continue
 			}
 		}
-		new_children = append(new_children, createDefault(def))
+		if d := createDefault(def); d != nil {
+			new_children = append(new_children, d)
+		}
 	}
 
 	return new_children
@@ -209,7 +211,14 @@ func createDefault(sch Node) datanode.DataNode {
 			func(Node) bool { return false }) {
 			continue
 		}
-		children = append(children, createDefault(ch))
+		if d := createDefault(ch); d != nil {
+			children = append(children, d)
+		}
+	}
+	if len(children) == 0 {
+		// Every default below belongs to a case that is not the default
+		// case: there is nothing to create.
+		return nil
 	}
 
 	return datanode.CreateDataNode(sch.Name(), children, nil)
